@@ -15,6 +15,7 @@ Only property theorems live here (helper lemmas: `Lemmas/SimpleFont.lean`, `Lemm
 import PdfVerif.Lemmas.SimpleFontBuild
 import PdfVerif.Lemmas.Agl
 import PdfVerif.Lemmas.SimpleFontInst
+import PdfVerif.Lemmas.Type1Roundtrip
 
 namespace PdfVerif.Props.C06
 open PdfVerif PdfVerif.SimpleFont PdfVerif.SimpleFont.Spec PdfVerif.Gen.FontCode
@@ -347,6 +348,109 @@ theorem put_underflow_ignored :
 /-- An odd number of objects between `<<` and `>>` makes `get_encoding` (and font construction) raise. -/
 theorem odd_dict_raises : t1Puts [60, 60, 32, 47, 65, 32, 62, 62, 32] = .error "PSSyntaxError" := by
   decide +kernel
+
+/-! ## Round trip: every written header is read back exactly -/
+
+open PdfVerif.Lexer PdfVerif.Roundtrip in
+/-- **General round trip** (was: kernel-evaluated instances only).  For EVERY header written by `writeHeader` -
+any leading white space / comments, then any sequence of `dup <key> /<name> put` lines (key with sign and
+leading zeros, name bytes raw or `#xx`-escaped, any white space / comments between the tokens, nothing needed
+between key and `/name`), inert keywords and stray integers - the tokeniser and `Type1FontHeaderParser`'s
+stack machine return exactly the written pairs, in order, with the name bytes decoded as UTF-8, and no exception.
+(`HeaderItem.ok`: the spelling is a spelling - digits are digits, at most 4300 of them (Python's
+`int` limit), separators are white space / comments and are not empty after a keyword or name.) -/
+theorem t1_roundtrip (pad : List SepItem) (hpad : sepOK pad) (items : List HeaderItem)
+    (h : ∀ i ∈ items, i.ok) :
+    t1Puts (writeHeader pad items) = .ok ((itemResults items).map (fun r => (r.1, utf8Chars r.2))) := by
+  unfold t1Puts
+  simp only [header_tokens pad hpad items h]
+  obtain ⟨he, hr⟩ := feed_items items {} rfl h
+  simp only [he, hr]
+  rfl
+
+open PdfVerif.Lexer PdfVerif.Roundtrip in
+/-- The same for a header made of `put` lines only: `t1Puts (write puts) = puts`. -/
+theorem t1_roundtrip_puts (pad : List SepItem) (hpad : sepOK pad) (puts : List PutSpelling)
+    (h : ∀ p ∈ puts, p.ok) :
+    t1Puts (writeHeader pad (puts.map HeaderItem.put)) =
+      .ok (puts.map (fun p => (p.key, utf8Chars (nameValue p.name)))) := by
+  rw [t1_roundtrip pad hpad _ (by
+    intro i hi
+    obtain ⟨p, hp, rfl⟩ := List.mem_map.mp hi
+    exact h p hp)]
+  congr 1
+  induction puts with
+  | nil => rfl
+  | cons p r ih =>
+    simp only [List.map_cons, itemResults, HeaderItem.results, List.cons_append, List.nil_append, List.cons.injEq,
+      true_and]
+    exact ih (fun q hq => h q (by simp [hq]))
+
+section RoundtripExample
+open PdfVerif.Lexer PdfVerif.Roundtrip
+
+/-- `%!PS⏎11 dict 	dup 65/A put⏎dup	-07 %x⍽⏎/f#5Fi put ` -/
+def rtPad : List SepItem := [.comment [33, 80, 83] 10]
+def rtItems : List HeaderItem :=
+  [.num [] [49, 49] [.ws 32], .word 100 [105, 99, 116] [.ws 32, .ws 9],
+   .put { sign := [], digits := [54, 53], name := [.raw 65], g1 := [.ws 32], g2 := [], g3 := [.ws 32], g4 := [.ws 10] },
+   .put { sign := [45], digits := [48, 55], name := [.raw 102, .esc 53 70, .raw 105], g1 := [.ws 9],
+          g2 := [.ws 32, .comment [120] 13, .ws 10], g3 := [.ws 32], g4 := [.ws 32] }]
+
+/-- Non-vacuity of `t1_roundtrip`: the hypotheses hold for a header that uses every freedom. -/
+theorem rtItems_ok : sepOK rtPad ∧ ∀ i ∈ rtItems, i.ok := by
+  have g32 : SepItem.ok (.ws 32) := (by decide : isGapByte 32 = true)
+  have g9 : SepItem.ok (.ws 9) := (by decide : isGapByte 9 = true)
+  have g10 : SepItem.ok (.ws 10) := (by decide : isGapByte 10 = true)
+  have gc : SepItem.ok (.comment [120] 13) :=
+    ⟨by intro x hx; simp at hx; subst hx; decide +kernel, Or.inr rfl⟩
+  have dig : ∀ (a b : UInt8), isDigit a = true → isDigit b = true → digitsOK [a, b] := by
+    intro a b ha hb
+    refine ⟨by simp, ?_, by simp⟩
+    intro c hc; simp at hc; rcases hc with rfl | rfl <;> assumption
+  refine ⟨?_, ?_⟩
+  · intro i hi
+    simp only [rtPad, List.mem_singleton] at hi
+    subst hi
+    exact ⟨by intro x hx; simp at hx; rcases hx with rfl | rfl | rfl <;> decide +kernel, Or.inl rfl⟩
+  · intro i hi
+    simp only [rtItems, List.mem_cons, List.not_mem_nil, or_false] at hi
+    rcases hi with rfl | rfl | rfl | rfl
+    · exact ⟨Or.inl rfl, dig 49 49 (by decide) (by decide),
+        by intro i hi; simp at hi; subst hi; exact g32, by simp⟩
+    · refine ⟨by decide, ?_, by decide, by decide, by decide, ?_, by simp⟩
+      · intro x hx; simp at hx; rcases hx with rfl | rfl | rfl <;> decide
+      · intro i hi; simp at hi; rcases hi with rfl | rfl
+        · exact g32
+        · exact g9
+    · refine ⟨Or.inl rfl, dig 54 53 (by decide) (by decide), ?_, ?_, by simp, ?_, ?_, by simp, ?_, by simp⟩
+      · intro i hi; simp at hi; subst hi; exact (by decide : nameRaw 65 = true)
+      · intro i hi; simp at hi; subst hi; exact g32
+      · intro i hi; cases hi
+      · intro i hi; simp at hi; subst hi; exact g32
+      · intro i hi; simp at hi; subst hi; exact g10
+    · refine ⟨Or.inr (Or.inr rfl), dig 48 55 (by decide) (by decide), ?_, ?_, by simp, ?_, ?_, by simp, ?_, by simp⟩
+      · intro i hi; simp at hi
+        rcases hi with rfl | rfl | rfl
+        · exact (by decide : nameRaw 102 = true)
+        · exact ⟨by decide +kernel, by decide +kernel⟩
+        · exact (by decide : nameRaw 105 = true)
+      · intro i hi; simp at hi; subst hi; exact g9
+      · intro i hi; simp at hi
+        rcases hi with rfl | rfl | rfl
+        · exact g32
+        · exact gc
+        · exact g10
+      · intro i hi; simp at hi; subst hi; exact g32
+      · intro i hi; simp at hi; subst hi; exact g32
+
+example : writeHeader rtPad rtItems =
+    [37, 33, 80, 83, 10, 49, 49, 32, 100, 105, 99, 116, 32, 9, 100, 117, 112, 32, 54, 53, 47, 65, 32, 112, 117, 116, 10,
+     100, 117, 112, 9, 45, 48, 55, 32, 37, 120, 13, 10, 47, 102, 35, 53, 70, 105, 32, 112, 117, 116, 32] := by decide
+example : t1Puts (writeHeader rtPad rtItems) = .ok [(65, some ['A']), (-7, some ['f', '_', 'i'])] := by
+  rw [t1_roundtrip rtPad rtItems_ok.1 rtItems rtItems_ok.2]; decide
+
+end RoundtripExample
 
 /-! ## Font cache -/
 
